@@ -19,7 +19,7 @@ ASSUMPTIONS = ["reference grammar and lexer in vf/refparse.py (cross-checked on 
                "'0101' literals, import..as) are outside the grammar clause and not judged"]
 TIERS = {"quick": {"shards": 8, "budget_s": 60}, "thorough": {"shards": 16, "budget_s": 480}}
 REQUIRE = {"entry-points-compared": 2000, "illegal-character-texts-judged": 1500, "mutation:lookalike-digit": 200, "mutation:same-kind-nesting": 300, "mutation:refused-literal": 30, "mutation:exotic-character": 500,
-           "shards-reducing-every-production-of-the-listed-grammar": 1, "layouts-checked": 2000, "near-misses-with-multiline-block-comment": 3000, "near-misses-judged": 5000, "both-reject:position-checked": 2000,
+           "shards-reducing-every-production-of-the-listed-grammar": 1, "layouts-checked": 2000, "header-only-parses-compared": 2000, "near-misses-with-multiline-block-comment": 3000, "near-misses-judged": 5000, "both-reject:position-checked": 2000,
            "layout:multiple-block-comments": 100, "layout:multiline-block-comment": 50, "layout:line-comment": 200,
            "mutation:truncate": 500, "mutation:header-after-body": 100, "both-accept:tree-compared": 300}
 
@@ -162,6 +162,8 @@ def positives(ctx, prog, nlay):
             rec.count("both-accept:tree-compared")
         if k % 2 == 1:
             entry_points_agree(ctx, text)
+        elif not fails and info.get("cmp") == "both-accept":
+            header_only_agrees(ctx, text, prog)
         for clause, detail in fails:
             mech = [f for f in feats if f in ("multiple-block-comments", "multiline-block-comment", "line-comment")]
             small = shrink_text(text, clause, prog)
@@ -182,6 +184,40 @@ def positives(ctx, prog, nlay):
                 if not same:
                     rec.violation(sig("C02", "layout:circuit-differs", feats), {"text": text, "canonical": canon},
                                   {"kind": "layout", "prog": prog, "text": text})
+
+
+def header_only_agrees(ctx, text, prog):
+    """The header-only entry points see the header the full parse sees: parse_to_sexpression(header_only=True) gives the
+    header statements of the full tree (also with return_usepulses=True), and the circuit of parse_jaqal_string_header
+    has the declarations of the full circuit."""
+    rec = ctx.rec
+    pm = lib._m("jaqalpaq.parser.parser")
+    want = tuple([prog[0]] + [x for x in prog[1:] if x[0] in sx.HEADER])
+    for opt in (False, True):
+        o = lib.outcome(lambda: pm.parse_to_sexpression(text, header_only=True, return_usepulses=opt))
+        rec.count("header-only-parses-compared")
+        got = None
+        if o[0] == "ok":
+            got = sx.norm(o[1][0] if opt else o[1])
+        if got is None or not sx.sx_equal_strict(got, want):
+            rec.violation(sig("C02", "header-only-parse-differs-from-the-header-of-the-full-parse" + (":return_usepulses" if opt else "")),
+                          {"text": text, "expected": want, "got": got if got is not None else str(o[:3])[:200]}, {"kind": "header", "prog": prog, "text": text})
+            return
+    a, b = lib.outcome(lib.parse, text), lib.outcome(lib.parse_header, text)
+    if a[0] == "ok":
+        ok = b[0] == "ok"
+        if ok:
+            try:
+                ok = (list(a[1].constants) == list(b[1].constants) and list(a[1].registers) == list(b[1].registers)
+                      and all(a[1].constants[k] == b[1].constants[k] for k in a[1].constants)
+                      and all(a[1].registers[k] == b[1].registers[k] for k in a[1].registers)
+                      and [str(u.module) for u in a[1].usepulses] == [str(u.module) for u in b[1].usepulses]
+                      and not b[1].body.statements and not b[1].macros)
+            except Exception:
+                ok = False
+        if not ok:
+            rec.violation(sig("C02", "header-circuit-differs-from-the-declarations-of-the-full-circuit"), {"text": text, "header": str(b[:3])[:300]},
+                          {"kind": "header", "prog": prog, "text": text})
 
 
 def shrink_text(text, clause, prog):
@@ -498,6 +534,9 @@ def shard(ctx):
 def replay(ctx, case):
     if case.get("kind") == "entry":
         entry_points_agree(ctx, case["text"])
+        return
+    if case.get("kind") == "header":
+        header_only_agrees(ctx, case["text"], sx.unnorm(case["prog"]) if isinstance(case["prog"], list) else case["prog"])
         return
     if case.get("kind") == "layout":
         prog = sx.unnorm(case["prog"]) if isinstance(case["prog"], list) else case["prog"]
